@@ -618,6 +618,7 @@ class Exec:
         self.pos = 0
         self.pending = []
         self.pc = []
+        self.items = []          # ordered [('d', definition) | ('c', branch condition)]
         self.fresh_n = 0
         self.notes = []
         self.total_steps = 0
@@ -638,12 +639,15 @@ class Exec:
                 self._base = (id(base_axioms), len(base_axioms))
             self.solver.push()
 
-    def assume(self, c):
+    def assume(self, c, kind='d'):
+        """kind 'd': a total, uniquely satisfiable definition of fresh variables (or an axiom / precondition):
+        never negated. kind 'c': a branch condition."""
         if isinstance(c, bool):
             if not c:
                 raise Infeasible()
             return
         self.pc.append(c)
+        self.items.append((kind, c))
         if not self.replay_only:
             self.solver.add(c)
 
@@ -680,7 +684,7 @@ class Exec:
                 d = t
             self.script = self.script + [d]
         self.pos += 1
-        self.assume(cond if d else not_(cond))
+        self.assume(cond if d else not_(cond), 'c')
         return d
 
     def choose(self, n):
@@ -698,8 +702,12 @@ class Exec:
         return d
 
     def fresh(self, name, sort='int'):
+        # the name is keyed by the decisions taken so far: equal names in two paths imply the same
+        # execution prefix and therefore the same definition (paths can be combined in one query)
         self.fresh_n += 1
-        n = '%s!%d%s' % (name, self.fresh_n, getattr(self, 'suffix', ''))
+        import zlib
+        key = zlib.crc32(repr(self.script[:self.pos]).encode()) & 0xffffffff
+        n = '%s!%d_%08x%s' % (name, self.fresh_n, key, getattr(self, 'suffix', ''))
         return z3.Int(n) if sort == 'int' else z3.Bool(n)
 
     # ---- constants
@@ -1156,7 +1164,7 @@ def explore(ex, run, base_axioms=(), max_paths=200000, scripts=None, prefix=None
                 outcome = ('panic', p.msg)
             if ex.pos != len(ex.script):
                 raise Unsupported('replay did not consume its script')
-            out.append((list(sc), list(ex.pc), outcome, list(ex.notes)))
+            out.append((list(sc), list(ex.items), outcome, list(ex.notes)))
         return out
     work = [list(prefix or [])]
     t0 = time.time()
@@ -1175,7 +1183,7 @@ def explore(ex, run, base_axioms=(), max_paths=200000, scripts=None, prefix=None
             outcome = None
         work.extend(ex.pending)
         if outcome is not None:
-            out.append((list(ex.script[:ex.pos]), list(ex.pc), outcome, list(ex.notes)))
+            out.append((list(ex.script[:ex.pos]), list(ex.items), outcome, list(ex.notes)))
             if len(out) >= max_paths:
                 raise Unsupported('path bound exceeded')
     return out
